@@ -55,6 +55,12 @@ def _run_once(case, fault):
              "policy": case.get("policy", "MyopicNaiveGreedyDecision")}
     cfg, meta = _c01.build_case(ccase)
     cfg["time"]["output_step_sec"] = case["out"]
+    if case.get("span_cfg"):
+        # the CONFIGURED span is shorter than the run: epoch rows beyond it are not pre-populated by the clock
+        from harness import scenario_util as _su
+        t0 = _su.parse_iso(case["start"])
+        from datetime import timedelta as _td
+        cfg["time"]["stop_timestamp"] = _su.iso(t0 + _td(seconds=case["span_cfg"] * step))
     cfg["propagation"]["truth_simulation_only"] = not case["estimation"]
     if case.get("mdet"):
         # maneuver detection + stored filter steps: rows of detected_maneuvers / filter-step tables must also be consistent
@@ -100,6 +106,8 @@ def _run_once(case, fault):
     if (case["out"] * _c01.DT_SPEC) % step != 0:
         raise ValueError("output/physics ratio not representable on the tick lattice")
     g["out_dt"] = case["out"] * _c01.DT_SPEC // step
+    if case.get("span_cfg"):
+        g["span"] = case["span_cfg"]
     return {"case": case, "group": g, "events": events, "ops": ops}
 
 
@@ -186,6 +194,11 @@ def make_cases(ctx: Ctx, rng):
                    [{"kind": "removeSensor", "t0": (j - 1) * step + 1, "index": 1}, {"kind": "addTarget", "t0": (j + 1) * step}],
                    [{"kind": "addSensor", "t0": j * step}]][(pi + si) % 4]
             add(start=start, step=step, out=out, span=span, split=split, estimation=True, events=evs)
+            if si in (0, 1):
+                # the run continues beyond the configured stop time; start instants whose day fraction is not exactly
+                # representable (16:00, 07:13) make differently computed Julian dates differ in the last bit
+                add(start=["2021-03-30T16:00:00", "2019-06-15T07:13:00"][si], step=step, out=out, span=span, split=split,
+                    estimation=si == 0, span_cfg=max(1, span // 2))
             if si == 0:
                 add(start=start, step=step, out=out, span=span, split=split, estimation=True, mdet=True,
                     events=[{"kind": "impulse", "t0": step, "planned": False}])
